@@ -116,4 +116,71 @@ func c14Forms(c *Ctx) {
 	Flags{}.Apply()
 }
 
-const c14FormsRule = "; forms of the expression: 42 expressions (anchored literal with / without a group, one-sided anchors, classes, repetition, alternation with / without a group, flags i m s U, word boundaries, \\A \\z; those that match an operator or structural key are left out and counted) x 39 names that are near misses of each other x 5 line shapes x {plain, N+B}: redacted exactly when regexp.MatchString(expression, name)"
+// c14Depths: the matching name at EVERY depth 1..150 (thorough 600) of a chain of sub-documents, with the literal right
+// below it or at the bottom of the chain; and a chain without any matching name (the literal stays).  Anything that
+// stops looking at names beyond some depth shows at exactly that depth.
+func c14Depths(c *Ctx) {
+	maxD := 150
+	if c.Thorough() {
+		maxD = 600
+	}
+	const canary = "q7Z~depth~kX"
+	mkLine := func(cmd string) string {
+		return `{"t":{"$date":"2024-05-01T10:00:00.123+00:00"},"s":"I","c":"COMMAND","id":51803,"ctx":"conn7","msg":"Slow query","attr":{"type":"command","ns":"shop.orders","command":` + cmd + `,"durationMillis":3}}`
+	}
+	chain := func(d, at int, name string) string { // d levels l1..ld; level `at` (1-based) is called name; the literal sits at the bottom
+		var sb strings.Builder
+		for i := 1; i <= d; i++ {
+			k := fmt.Sprintf("l%d", i)
+			if i == at {
+				k = name
+			}
+			sb.WriteString(`{"` + k + `":`)
+		}
+		sb.WriteString(`"` + canary + `"`)
+		sb.WriteString(strings.Repeat("}", d))
+		return sb.String()
+	}
+	var no int64
+	for _, fl := range []Flags{{Z: "^ssn$"}, {Z: "(?i)^(ssn|pii)$", N: true, B: true}} {
+		fl.Apply()
+		for d := 1; d <= maxD; d++ {
+			no++
+			if !c.Mine(no) {
+				continue
+			}
+			for _, v := range []struct {
+				name string
+				at   int
+				want bool
+			}{{"name at the bottom", d, true}, {"name at the top", 1, true}, {"name in the middle", (d + 1) / 2, true}, {"no matching name", 0, false}} {
+				for si, cmd := range []string{
+					`{"insert":"orders","documents":[` + chain(d, v.at, "ssn") + `],"$db":"shop"}`,
+					`{"find":"orders","filter":` + chain(d, v.at, "ssn") + `,"$db":"shop"}`,
+					`{"update":"orders","updates":[{"q":{"k":1},"u":{"$set":` + chain(d, v.at, "ssn") + `}}],"$db":"shop"}`,
+				} {
+					line := mkLine(cmd)
+					out, ok, pv := redactLine(line)
+					c.Eval(1)
+					c.Distinct(fmt.Sprintf("depth|%s|%d|%s|%d", fl, d, v.name, si))
+					if pv != nil || !ok {
+						c.Count("skipped_panics_or_rejected", 1)
+						continue
+					}
+					redacted := !strings.Contains(out, canary)
+					rp := map[string]any{"kind": "redact-line", "input": line, "flags": fl.String(), "output": out}
+					if v.want && !redacted {
+						c.Violate("selective-depth:not-redacted", fmt.Sprintf("a chain of %d sub-documents with the matching name %s (level %d), flags [%s], %s: the literal is emitted in clear", d, v.name, v.at, fl, []string{"inserted document", "find filter", "$set"}[si]), int64(d), rp, nil)
+					} else if !v.want && redacted {
+						c.Violate("selective-depth:redacted-without-matching-name", fmt.Sprintf("a chain of %d sub-documents without any matching name, flags [%s], %s: the literal is redacted", d, fl, []string{"inserted document", "find filter", "$set"}[si]), int64(d), rp, nil)
+					} else {
+						c.Outcome("as-specified")
+					}
+				}
+			}
+		}
+	}
+	Flags{}.Apply()
+}
+
+const c14FormsRule = "; depths: the matching name at the bottom / top / middle of a chain of d sub-documents for EVERY d = 1..150 (thorough 600), and a chain with no matching name, in inserted documents, find filters and $set" + "; forms of the expression: 42 expressions (anchored literal with / without a group, one-sided anchors, classes, repetition, alternation with / without a group, flags i m s U, word boundaries, \\A \\z; those that match an operator or structural key are left out and counted) x 39 names that are near misses of each other x 5 line shapes x {plain, N+B}: redacted exactly when regexp.MatchString(expression, name)"
